@@ -564,8 +564,10 @@ Proof.
     intros t1 i o1 r b e t2 i2 o2 r2 b2 e2 Hev Hf1 Hs1 Hev2 Hf2 Hk Hlt.
     destruct (EV _ _ _ _ _ _ Hev) as [Hold|(-> & -> & -> & Hni0 & _ & -> & _ & _ & Hm)];
     destruct (EV _ _ _ _ _ _ Hev2) as [Hold2|(-> & -> & -> & Hni2 & -> & -> & _ & Er2 & Hm2)].
-    + eapply (li_s5 _ L); eauto.
-    + destruct (ri_res _ _ R' _ _ _ _ _ _ Hnew ltac:(rewrite Er2, nth_error_app2, Hlen, Nat.sub_diag by lia; reflexivity)) as (o3 & Ho3 & HR).
+    + exact (li_s5 _ L _ _ _ _ _ _ _ _ _ _ _ _ Hold Hf1 Hs1 Hold2 Hf2 Hk Hlt).
+    + assert (Hr2 : nth_error (results th') (opi th) = Some (r2, tbegin th, now s)).
+      { rewrite Er2, nth_error_app2 by lia. rewrite Hlen, Nat.sub_diag. reflexivity. }
+      destruct (ri_res _ _ R' _ _ _ _ _ _ Hnew Hr2) as (o3 & Ho3 & HR).
       rewrite Hprog in Ho3. unfold cur_op in Hop. rewrite Hop in Ho3. inversion Ho3; subst o3.
       destruct r2 as [n0 x0 ins sn| |x0 sn a].
       * destruct HR as (Hf3 & _). congruence.
@@ -615,7 +617,7 @@ Proof.
   destruct r' as [n0 x0 ins sn0| |[[n0 x0]|] sn0 a].
   - destruct HR as (Hf3 & _). congruence.
   - destruct HR as (Hf3 & _). congruence.
-  - destruct (hc_same_element _ _ _ _ _ _ _ _ _ _ _ _ _ _ _ _ _ _ R E1 E2 (eq_sym Hk) Hs eq_refl) as (-> & -> & _). eauto.
+  - destruct (hc_same_element hash cap g progs s _ _ _ _ _ _ _ _ _ _ _ _ _ _ R E1 E2 (eq_sym Hk) Hs eq_refl) as (-> & -> & _). eauto.
   - simpl in Hflag. subst a. pose proof (li_fres _ L _ _ _ _ _ _ _ Hev'). discriminate.
 Qed.
 End Lin.
